@@ -140,6 +140,20 @@ LongCases ==
    /\ LET I == T("i64", <<n>>, [k \in 1..n |-> (k * 7919) % (2 * n + 1)]) IN P(CaseRec("long", "Gather", <<>>, <<V, I>>, SemGather(V, I, <<>>), <<"value", "long">>))
    /\ LET C == Iota("f32", <<n, 1>>, 0) S == I64(<<n, 2>>) IN P(CaseRec("long", "Expand", <<>>, <<C, S>>, SemExpand(C, S), <<"value", "long">>))
 
+\* tiling law (Outcome.tla): operators that leave the leading axis in place treat its rows independently
+TileEmit(op, attrs, ins, a, S, Sem(_)) ==
+   TileLaw(Sem, ins, S) => P(CaseRec("tile", op, attrs, ins, a, <<"value", "tile_law">>) @@ [tile |-> TileField(S)])
+TileIndexCases ==
+   LET X == Iota("f32", <<3, 2, 2>>, 0) Y == Iota("f32", <<3, 4>>, 0) Y1 == Iota("f32", <<3, 1>>, 50) IN
+   /\ \A p \in {<<0, 2, 1>>, <<0, 1, 2>>} : TileEmit("Transpose", <<AIs("perm", p)>>, <<X>>, SemTranspose(X, <<AIs("perm", p)>>), {1}, LAMBDA ins : SemTranspose(ins[1], <<AIs("perm", p)>>))
+   /\ \A ax \in {1, -1} : TileEmit("Concat", <<AI("axis", ax)>>, <<Y, Y1>>, SemConcat(<<Y, Y1>>, <<AI("axis", ax)>>), {1, 2}, LAMBDA ins : SemConcat(ins, <<AI("axis", ax)>>))
+   /\ TileEmit("Concat", <<AI("axis", 1)>>, <<Y, Y1, Y>>, SemConcat(<<Y, Y1, Y>>, <<AI("axis", 1)>>), {1, 2, 3}, LAMBDA ins : SemConcat(ins, <<AI("axis", 1)>>))
+   /\ \A se \in {<<1, 3, 1>>, <<0, 4, 2>>, <<3, 0, -1>>} :
+         TileEmit("Slice", <<>>, <<Y, I64(<<se[1]>>), I64(<<se[2]>>), I64(<<1>>), I64(<<se[3]>>)>>, SemSliceInts(Y, <<se[1]>>, <<se[2]>>, <<1>>, <<se[3]>>), {1},
+                  LAMBDA ins : SemSliceInts(ins[1], <<se[1]>>, <<se[2]>>, <<1>>, <<se[3]>>))
+   /\ \A ix \in {<<2, 0>>, <<-1>>, <<1, 1, 3>>} :
+         TileEmit("Gather", <<AI("axis", 1)>>, <<Y, I64(ix)>>, SemGather(Y, I64(ix), <<AI("axis", 1)>>), {1}, LAMBDA ins : SemGather(ins[1], ins[2], <<AI("axis", 1)>>))
+
 Init ==
    \/ ("dtypes" \in Fams /\ st \in [fam : {"dtypes"}, dt : AllDTypes, done : {FALSE}])
    \/ ("transpose" \in Fams /\ st \in [fam : {"transpose"}, shape : DataShapes(1..4), done : {FALSE}])
@@ -159,7 +173,7 @@ Emit ==
         [] st.fam = "slicex"    -> SliceExtremeCases(st.shape) /\ SliceInvalidCases(st.shape)
         [] st.fam = "gather"    -> (st.axis \in (-Len(st.shape) - 1)..Len(st.shape) => GatherCases(st.shape, st.axis))
         [] st.fam = "expand"    -> ExpandCases(st.shape, st.target)
-        [] st.fam = "dtypes"    -> DtypeCases(st.dt) /\ (st.dt = "f32" => LongCases /\ SpecialValueCases)
+        [] st.fam = "dtypes"    -> DtypeCases(st.dt) /\ (st.dt = "f32" => LongCases /\ SpecialValueCases /\ TileIndexCases)
    /\ st' = [st EXCEPT !.done = TRUE]
 Next == Emit
 Spec == Init /\ [][Next]_st
